@@ -1,6 +1,8 @@
 //! Bounded differential check of Frame as an ordered multimap (C19): every frame of <= 4 fields over the keys {a, A, b}
 //! (a case variant included) x every sequence of <= 3 `get` operations over those keys, against a Vec model; after
 //! every operation `find` for every key, forward / backward / owned iteration, `fields_len`, `is_empty` are compared.
+//! Then every response of <= 4 frames with / without a trailing error: borrowed and owned frame iteration (forward, backward, every
+//! front/back split), counts, flags, into_single_frame against the model `frames in order, then the error`.
 //! Frames are obtained through the public API (parsed from wire bytes by the real connection).
 //! Prints the first deviating case as JSON and exits 1; exits 0 if none.   usage: frame_ops [case <fieldkeys> <ops>]
 use vx_replay::*;
@@ -47,10 +49,66 @@ fn run_case(keys: &[usize], ops: &[usize]) -> Option<String> {
     }
     None
 }
+/// a response of `n` frames (frame j holds the single field `f: j`), followed by an ACK if `err`
+fn response_of(n: usize, err: bool) -> mpd_protocol::response::Response {
+    let mut wire = b"OK MPD 0.23.5\n".to_vec();
+    for j in 0..n { wire.extend(format!("f: {j}\nlist_OK\n").as_bytes()); }
+    if err { wire.extend(format!("ACK [5@{n}] {{x}} boom\n").as_bytes()); } else { wire.extend(b"OK\n"); }
+    let mut c = mpd_protocol::Connection::connect(Chunks::new(&[&wire])).unwrap();
+    c.receive().unwrap().unwrap()
+}
+/// Response as "all frames in order, then at most one error": borrowed and owned iteration, forward / backward / mixed with
+/// every split point, counts and flags
+fn run_resp_case(n: usize, err: bool) -> Option<String> {
+    let r = response_of(n, err);
+    let model: Vec<String> = (0..n).map(|j| format!("F{j}")).chain(if err { Some("E5".to_string()) } else { None }).collect();
+    let show_ref = |x: Result<&mpd_protocol::response::Frame, &mpd_protocol::response::Error>| match x { Ok(f) => format!("F{}", f.find("f").unwrap_or("?")), Err(e) => format!("E{}", e.code) };
+    let show_own = |x: Result<mpd_protocol::response::Frame, mpd_protocol::response::Error>| match x { Ok(f) => format!("F{}", f.find("f").unwrap_or("?")), Err(e) => format!("E{}", e.code) };
+    if r.is_error() != err || r.is_success() == err { return Some(format!("is_error {} is_success {} but error present: {err}", r.is_error(), r.is_success())); }
+    if r.successful_frames() != n { return Some(format!("successful_frames {} != {n}", r.successful_frames())); }
+    let fwd: Vec<String> = r.frames().map(show_ref).collect();
+    if fwd != model { return Some(format!("frames() yields {fwd:?}, model {model:?}")); }
+    let mut bwd: Vec<String> = r.frames().rev().map(show_ref).collect(); bwd.reverse();
+    if bwd != model { return Some(format!("frames().rev() yields (reversed back) {bwd:?}, model {model:?}")); }
+    if r.frames().len() != model.len() { return Some(format!("frames().len() {} != {}", r.frames().len(), model.len())); }
+    let refi: Vec<String> = (&r).into_iter().map(show_ref).collect();
+    if refi != model { return Some(format!("(&response).into_iter() yields {refi:?}, model {model:?}")); }
+    for front in 0..=model.len() {
+        // `front` items from the front, the rest from the back
+        let mut it = r.frames(); let mut got = Vec::new();
+        for _ in 0..front { got.push(it.next().map(show_ref)); }
+        let mut back = Vec::new();
+        loop { let x = it.next_back().map(show_ref); if x.is_none() { break; } back.push(x); if back.len() > model.len() + 1 { break; } }
+        back.reverse(); got.extend(back);
+        let want: Vec<Option<String>> = model.iter().cloned().map(Some).collect();
+        if got != want { return Some(format!("frames(): {front} from the front then the rest from the back yields {got:?}, model {model:?}")); }
+        if it.next().is_some() || it.next_back().is_some() { return Some("frames() yields an item after exhaustion".to_string()); }
+        let mut it = r.clone().into_iter(); let mut got = Vec::new();
+        for _ in 0..front { got.push(it.next().map(show_own)); }
+        let mut back = Vec::new();
+        loop { let x = it.next_back().map(show_own); if x.is_none() { break; } back.push(x); if back.len() > model.len() + 1 { break; } }
+        back.reverse(); got.extend(back);
+        if got != want { return Some(format!("response.into_iter(): {front} from the front then the rest from the back yields {got:?}, model {model:?}")); }
+        if it.next().is_some() || it.next_back().is_some() { return Some("response.into_iter() yields an item after exhaustion".to_string()); }
+    }
+    let own: Vec<String> = r.clone().into_iter().map(show_own).collect();
+    if own != model { return Some(format!("response.into_iter() yields {own:?}, model {model:?}")); }
+    if n + (err as usize) >= 1 {
+        let single = show_own(r.clone().into_single_frame());
+        if single != model[0] { return Some(format!("into_single_frame yields {single}, model {}", model[0])); }
+    }
+    None
+}
 fn digits(s: &str) -> Vec<usize> { s.chars().filter(|c| c.is_ascii_digit()).map(|c| c as usize - '0' as usize).collect() }
 fn main() {
     let a: Vec<String> = std::env::args().collect();
     std::panic::set_hook(Box::new(|_| {}));
+    if a.get(1).map(|s| s.as_str()) == Some("case") && a.get(2).map(|s| s.starts_with('r')) == Some(true) {
+        let d = digits(&a[2]);
+        let r = std::panic::catch_unwind(|| run_resp_case(d[0], d[1] == 1));
+        println!("response of {} frame(s), error: {}\nresult: {r:?}", d[0], d[1] == 1);
+        verdict(matches!(r, Ok(None)), "Response behaves as the sequence `frames in order, then at most one error`");
+    }
     if a.get(1).map(|s| s.as_str()) == Some("case") {
         let r = std::panic::catch_unwind(|| run_case(&digits(&a[2]), &digits(a.get(3).map(|s| s.as_str()).unwrap_or(""))));
         println!("fields {:?} ops(get) {:?}\nresult: {r:?}", a[2], a.get(3));
@@ -69,6 +127,13 @@ fn main() {
                 std::process::exit(1);
             }
         } }
+    } }
+    for n in 0..=4usize { for e in 0..2usize {
+        if n == 0 && e == 0 { continue; }   // an empty response is not produced by the receiver (C01)
+        cases += 1;
+        let r = std::panic::catch_unwind(|| run_resp_case(n, e == 1));
+        let bad = match r { Ok(None) => None, Ok(Some(e)) => Some(e), Err(_) => Some("PANIC".to_string()) };
+        if let Some(why) = bad { println!("{{\"fields\":\"r{n}e{e}\",\"ops\":\"o\",\"why\":{:?}}}", why); std::process::exit(1); }
     } }
     println!("{{\"cases\":{},\"deviations\":0}}", cases);
 }
